@@ -1549,6 +1549,9 @@ func (c *Client) callElicitationCompleteHandler(ctx context.Context, req *Elicit
 // This can be used if the client is performing a long-running task that was
 // initiated by the server.
 func (cs *ClientSession) NotifyProgress(ctx context.Context, params *ProgressNotificationParams) error {
+	if cs.usesNewProtocol() {
+		params = injectRequestMeta(cs, params)
+	}
 	return handleNotify(ctx, notificationProgress, newClientRequest(cs, orZero[Params](params)))
 }
 
